@@ -61,6 +61,8 @@ inline void conv(double& out, const double& in) { out = in; }
 inline void conv(double& out, const Rational& in) { out = verif_toReal(in.v); }
 inline void conv(Rational& out, const double& in) { out.v = verif_toRat(in); }
 inline void conv(Rational& out, const Rational& in) { out.v = in.v; }
+inline double negated(const double& x) { return -x; }
+inline Rational negated(const Rational& x) { Rational r; r.v = -x.v; return r; }
 inline int isRat(const double*) { return 0; }
 inline int isRat(const Rational*) { return 1; }
 
@@ -115,17 +117,16 @@ struct VectorBase
 };
 typedef VectorBase<Rational> VectorRational;
 
+/* sparse vectors are opaque tags; cv counts number-type conversions.  DSVectorBase<R>(v) is only used as a converting
+ * copy, so it is the same model type (a class template derived from a class template crashes goto-cc). */
 template <class T> struct SVectorBase
 {
    long long tag; int cv;
    SVectorBase() : tag(0), cv(0) {}
+   SVectorBase(const SVectorBase<double>& o) { tag = o.tag; cv = o.cv + (isRat((T*)0) != 0); }
+   SVectorBase(const SVectorBase<Rational>& o) { tag = o.tag; cv = o.cv + (isRat((T*)0) != 1); }
 };
-template <class T> struct DSVectorBase : SVectorBase<T>
-{
-   DSVectorBase() {}
-   DSVectorBase(const SVectorBase<double>& o) { this->tag = o.tag; this->cv = o.cv + (isRat((T*)0) != 0); }
-   DSVectorBase(const SVectorBase<Rational>& o) { this->tag = o.tag; this->cv = o.cv + (isRat((T*)0) != 1); }
-};
+#define DSVectorBase SVectorBase
 
 /* LPRow / LPCol: sides/bounds/objective + an opaque tag for the sparse vector; cv counts number-type conversions */
 template <class T> struct LPRowBase
@@ -185,6 +186,7 @@ typedef LPColSetBase<Real> LPColSetReal;   typedef LPColSetBase<Rational> LPColS
    inline void rec_vec1(const VectorBase<TYPE>& x) { PFX##pd1 = x.d; PFX##pq1 = x.q; }        \
    inline void rec_vec2(const VectorBase<TYPE>& x) { PFX##pd2 = x.d; PFX##pq2 = x.q; }        \
    inline void rec_perm(const TYPE*, int* p) { PFX##perm = p; }                               \
+   inline void rec_ptrs(const TYPE*, const long long* a, int* b) { PFX##pq1 = a; PFX##perm = b; } \
    inline void rec_tag(const TYPE*, long long t, int cv) { PFX##tag = t; PFX##conv = cv; }
 #define RAW_D(x) (x)
 #define RAW_Q(x) ((x).v)
@@ -211,6 +213,9 @@ template <class T>
 struct SPxLPBase
 {
    int nr, nc; bool scaled;
+   bool sense_max;           /* thesense == MAXIMIZE */
+   long long gmp_tag;        /* identity of the sparse vector a GMP entry point builds from (values, indices, size) */
+   long long last_vec_tag; int last_vec_at;
    Attr<T> a_lhs, a_rhs, a_low, a_up, a_obj;
 
    bool isScaled() const { return scaled; }
@@ -221,6 +226,24 @@ struct SPxLPBase
    T lower(int i) const { __CPROVER_assert(0 <= i && i < nc, "LP column index in bounds"); return a_low.get(i); }
    T upper(int i) const { __CPROVER_assert(0 <= i && i < nc, "LP column index in bounds"); return a_up.get(i); }
    T obj(int i) const { __CPROVER_assert(0 <= i && i < nc, "LP column index in bounds"); return a_obj.get(i); }
+   T maxObj(int i) const { T o = obj(i); return sense_max ? o : negated(o); }
+   SVectorBase<T> rowVector(int i) const { __CPROVER_assert(i == last_vec_at, "model: only the vector of the row just added is available"); SVectorBase<T> v; v.tag = last_vec_tag; return v; }
+   SVectorBase<T> colVector(int i) const { __CPROVER_assert(i == last_vec_at, "model: only the vector of the column just added is available"); SVectorBase<T> v; v.tag = last_vec_tag; return v; }
+   /* GMP entry points (template <class S> in the real class; S = mpq_t is the only use) */
+   void addRow(const mpq_t* lhsValue, const mpq_t* rowValues, const int* rowIndices, int rowSize, const mpq_t* rhsValue)
+   {
+      T l(*lhsValue); T r(*rhsValue);
+      rec_call((T*)0, M_addRow_gmp); rec_v1(l); rec_v2(r); rec_n((T*)0, rowSize); rec_ptrs((T*)0, (const long long*)rowValues, (int*)rowIndices);
+      rec_tag((T*)0, gmp_tag, 0); rec_scale((T*)0, false);
+      a_lhs.set(nr, l); a_rhs.set(nr, r); last_vec_tag = gmp_tag; last_vec_at = nr; nr++;
+   }
+   void addCol(const mpq_t* objValue, const mpq_t* lowerValue, const mpq_t* colValues, const int* colIndices, int colSize, const mpq_t* upperValue)
+   {
+      T o(*objValue); T l(*lowerValue); T u(*upperValue);
+      rec_call((T*)0, M_addCol_gmp); rec_v1(l); rec_v2(u); rec_v3(o); rec_n((T*)0, colSize); rec_ptrs((T*)0, (const long long*)colValues, (int*)colIndices);
+      rec_tag((T*)0, gmp_tag, 0); rec_scale((T*)0, false);
+      a_low.set(nc, l); a_up.set(nc, u); a_obj.set(nc, o); last_vec_tag = gmp_tag; last_vec_at = nc; nc++;
+   }
    /* the model stores user-space (unscaled) values */
    T lhsUnscaled(int i) const { return lhs(i); }
    T rhsUnscaled(int i) const { return rhs(i); }
@@ -439,6 +462,10 @@ struct Host : SoPlexBase<R>
    {
 #include "objRational.inc"
    }
+   Rational maxObjRational(int i) const
+   {
+#include "maxObjRational.inc"
+   }
 #ifndef NO_HELPER_RANGETYPE
    RangeType _rangeTypeReal(const R& lower, const R& upper) const
    {
@@ -511,7 +538,7 @@ struct H : Host
    const LPRowSetBase<R>* a_rsetr; const LPRowSetRational* a_rsetq;
    const LPColSetBase<R>* a_csetr; const LPColSetRational* a_csetq;
    const SVectorBase<R>* a_svr;
-   const mpq_t* a_m1; const mpq_t* a_m2;
+   const mpq_t* a_m1; const mpq_t* a_m2; const mpq_t* a_m3; const mpq_t* a_mv;
    RangeType a_rt;
    VarStatusR* a_rows; VarStatusR* a_cols;   /* (the front end drops const on pointers to enums) */
    RET body()
@@ -543,10 +570,10 @@ extern "C" void w_lpmod(int syncmode, int objsense, int loaded, int hasBasis, in
 
 
    /* the two LP models */
-   SPxLPBase<R> realLP; realLP.nr = nr; realLP.nc = nc; realLP.scaled = (scaled != 0);
+   SPxLPBase<R> realLP; realLP.nr = nr; realLP.nc = nc; realLP.scaled = (scaled != 0); realLP.sense_max = (objsense == SoPlexBase<R>::OBJSENSE_MAXIMIZE); realLP.gmp_tag = vtag; realLP.last_vec_at = -1;
    realLP.a_lhs.base.d = r_lhs; realLP.a_lhs.base.dimen = nr; realLP.a_rhs.base.d = r_rhs; realLP.a_rhs.base.dimen = nr;
    realLP.a_low.base.d = r_low; realLP.a_low.base.dimen = nc; realLP.a_up.base.d = r_up; realLP.a_up.base.dimen = nc; realLP.a_obj.base.d = r_obj; realLP.a_obj.base.dimen = nc;
-   SPxLPRational ratLP; ratLP.nr = qnr; ratLP.nc = qnc; ratLP.scaled = false;
+   SPxLPRational ratLP; ratLP.nr = qnr; ratLP.nc = qnc; ratLP.scaled = false; ratLP.sense_max = realLP.sense_max; ratLP.gmp_tag = vtag; ratLP.last_vec_at = -1;
    ratLP.a_lhs.base.q = q_lhs; ratLP.a_lhs.base.dimen = qnr; ratLP.a_rhs.base.q = q_rhs; ratLP.a_rhs.base.dimen = qnr;
    ratLP.a_low.base.q = q_low; ratLP.a_low.base.dimen = qnc; ratLP.a_up.base.q = q_up; ratLP.a_up.base.dimen = qnc; ratLP.a_obj.base.q = q_obj; ratLP.a_obj.base.dimen = qnc;
 
@@ -610,8 +637,9 @@ extern "C" void w_lpmod(int syncmode, int objsense, int loaded, int hasBasis, in
    SVectorBase<R> svr; svr.tag = vtag; h.a_svr = &svr;
 #endif
 #if defined(NEED_a_m1) || defined(NEED_a_m2)
-   mpq_t m1; m1[0].v = w1; mpq_t m2; m2[0].v = w2;
-   h.a_m1 = (const mpq_t*)&m1; h.a_m2 = (const mpq_t*)&m2;
+   mpq_t m1; m1[0].v = w1; mpq_t m2; m2[0].v = w2; mpq_t m3; m3[0].v = w3;
+   h.a_m1 = (const mpq_t*)&m1; h.a_m2 = (const mpq_t*)&m2; h.a_m3 = (const mpq_t*)&m3;
+   h.a_mv = (const mpq_t*)qvec1;          /* an array of mpq_t: same layout as the rational array */
 #endif
 
    /* alias pointers and dimension ghosts for loop invariants */
